@@ -924,13 +924,21 @@ Proof. intros (d & n & -> & [_ Hs] & Hn). exists d, n. auto. Qed.
 (* ================================================================== the one-operation replay law *)
 (* the operations of C02's covered_op; Chmod must not be applied to the root itself *)
 Definition c01_op (C : cfg) (w : world) (o : op) : Prop :=
-  covered_op C w o /\ match o with Chmod p => p <> c_root C | _ => True end.
+  covered_op C w o /\
+  match o with
+  | Chmod p => p <> c_root C
+  | Rename p q => fisdir p (w_fs w) = true -> scope C p /\ c_recursive C = true     (* a directory: renamed inside the tree *)
+  | _ => True
+  end.
 
 Lemma delivers_covered C full w k r o w' : RSync C w k r -> c_mask C = WATCHDOG_ALL -> c01_op C w o ->
   apply_op w o = Some w' -> delivers C full w k r o.
 Proof.
   intros S Hm [Ho Hch] Ha. assert (Hq := rs_queue _ _ _ _ S). assert (W := rs_wf _ _ _ _ S).
-  destruct Ho as [o Hqo Hn|p Hn|p Hn Hr|p q ep Np Nq El De Ed|p q ep Np Nq Hrec El De Sp Hpr Sq Elq].
+  destruct Ho as [o Hqo Hn|p Hn|p Hn Hr|p q ep Np Nq El De Ed|p q ep Np Nq Hrec El De Sp Hpr Sq Elq
+                  |p q ep Np Nq Hrec Hfix El De Sp Hpr Sq Elq|p q ep Np Nq El De Hpr Hqr Hupr Hpl].
+  7:{ exfalso. destruct Hch as [Sp Hrec]; [unfold fisdir; now rewrite El|]. destruct Hpl as [Hf|[Hs _]]; [congruence | contradiction]. }
+  6:{ exfalso. destruct Hch as [Sp' _]; [unfold fisdir; now rewrite El | contradiction]. }
   - destruct o as [p|p|p|p|p|p|p q]; try contradiction; cbn [op_np] in Hn;
       destruct Hn as (d & n & -> & [Hd Hs] & Hv); assert (Np : npath (d ++ sep :: n)) by (exists d, n; repeat split; assumption);
       assert (Edn := dirname_np d n (conj Hd Hs) Hv).
@@ -983,8 +991,11 @@ Lemma ctr_ok_covered C full w o w' : wf_fs w -> c01_op C w o -> apply_op w o = S
   ctr_ok (c_recursive C) (c_root C) (tl (c_recursive C) (c_root C) w) (tl (c_recursive C) (c_root C) w')
          (contract (c_recursive C) full (c_root C) (w_fs w) o).
 Proof.
-  intros W [Ho _] Ha.
-  destruct Ho as [o Hqo Hn|p Hn|p Hn Hr|p q ep Np Nq El De Ed|p q ep Np Nq Hrec El De Sp Hpr Sq Elq].
+  intros W [Ho Hch] Ha.
+  destruct Ho as [o Hqo Hn|p Hn|p Hn Hr|p q ep Np Nq El De Ed|p q ep Np Nq Hrec El De Sp Hpr Sq Elq
+                  |p q ep Np Nq Hrec Hfix El De Sp Hpr Sq Elq|p q ep Np Nq El De Hpr Hqr Hupr Hpl].
+  7:{ exfalso. destruct Hch as [Sp Hrec]; [unfold fisdir; now rewrite El|]. destruct Hpl as [Hf|[Hs _]]; [congruence | contradiction]. }
+  6:{ exfalso. destruct Hch as [Sp' _]; [unfold fisdir; now rewrite El | contradiction]. }
   - destruct o as [p|p|p|p|p|p|p q]; try contradiction.
     + now apply ctr_touch.
     + now apply ctr_write.
